@@ -709,8 +709,11 @@ class C05(Prop):
 
     def shrink(self, case):
         ops = case["ops"]
-        for i in range(len(ops) - 1, -1, -1):
-            yield dict(case, ops=ops[:i] + ops[i + 1:])
+        size = len(ops) // 2
+        while size >= 1:                      # delta debugging: drop halves, quarters, … single ops
+            for i in range(0, len(ops), size):
+                yield dict(case, ops=ops[:i] + ops[i + size:])
+            size //= 2
         for i, op in enumerate(ops):
             if op[0] == "rchoice" and len(op[1]) > 1 and (op[3] is None or op[3][0] == 1):
                 for j in range(len(op[1])):
